@@ -86,8 +86,10 @@ def h_whole(c0: int, c1: int, c2: int, c3: int, n: int, prefix: str = "", first_
 
 def h_step(p0: int, p1: int, w0: int, w1: int, w2: int, w3: int, w4: int, w5: int, nwin: int, pre: int,
            lasttype: int, last_ebad: bool, tablemode: int, rowchar: int, lss: bool, first_lo: int = 0, first_hi: int = 0x110000):
-    """ONE call of scan() from an arbitrary state satisfying the representation invariant: whatever was scanned before is
-    summarised by two symbolic characters in front of `start`, the type of the last token, the flags and counters."""
+    """ONE call of scan() from an arbitrary state satisfying the representation invariant I (tokens tile [0, start) except
+    U+EBAD, flags consistent).  The history is summarised by the characters in front of `start`, the last token(s), the flags
+    and counters.  pre = 0: start of the text; 1: one token covers the two characters before start (or a pending section
+    marker + one token if lss); 2: like 1 but a dropped U+EBAD sits between the two tokens.  Post-condition: progress and I again."""
     S = scanner()
     E = S["ENUM"]
     win = [w0, w1, w2, w3, w4, w5][:nwin]
@@ -98,29 +100,33 @@ def h_step(p0: int, p1: int, w0: int, w1: int, w2: int, w3: int, w4: int, w5: in
     assume(tablemode >= 0)
     assume(0 <= rowchar < 0x110000)
     assume(0 <= lasttype < len(E))
-    s_tok = []
+
+    def tok(typ, start, ln):
+        t = S["Tok"]()
+        t.type, t.start, t.len = typ, start, ln
+        return t
+
     if pre == 0:
-        prefix = []
+        prefix, toks, lsi = [], [], -1
         assume(not lss)
     else:
-        prefix = [p0, p1]
-        assume(p0 != 0 and p1 != 0)
+        assume(p0 != 0 and p1 != 0 and p0 != EBAD and p1 != EBAD)
         assume(lasttype != E["t_end"] and lasttype != E["t_ebad"])
+        if pre == 1:
+            prefix = [p0, p1]
+            if lss:
+                toks, lsi = [tok(E["t_section"], 0, 1), tok(lasttype, 1, 1)], 0
+            else:
+                toks, lsi = [tok(lasttype, 0, 2)], -1
+        else:
+            prefix = [p0, EBAD, p1]
+            assume(not last_ebad)  # the token after the dropped character has been found already
+            toks, lsi = [tok(E["t_section"] if lss else E["t_text"], 0, 1), tok(lasttype, 2, 1)], (0 if lss else -1)
     buf = prefix + win + [0] * 32
     s = S["Scanner"](buf, 0, len(buf))
     s.cursor = len(prefix)
-    if pre:
-        if lss:
-            a = S["Tok"]()
-            a.type, a.start, a.len = E["t_section"], 0, 1
-            b = S["Tok"]()
-            b.type, b.start, b.len = lasttype, 1, 1
-            s.tokens = [a, b]
-            s.line_startswith_section = 0
-        else:
-            a = S["Tok"]()
-            a.type, a.start, a.len = lasttype, 0, 2
-            s.tokens = [a]
+    s.tokens = toks
+    s.line_startswith_section = lsi
     s.last_ebad = 1 if last_ebad else 0
     s.tablemode = tablemode
     s.lineflags_rowchar = rowchar
@@ -134,46 +140,28 @@ def h_step(p0: int, p1: int, w0: int, w1: int, w2: int, w3: int, w4: int, w5: in
         return {"sig": "no-termination", "buf": buf[:len(prefix) + nwin], "detail": str(e)}
     after = [(t.type, t.start, t.len) for t in s.tokens]
     ctx = {"buf": buf[:len(prefix) + nwin], "start": start, "before": before, "after": after, "cursor": s.cursor, "ret": r,
-           "state": [lasttype, bool(last_ebad), tablemode, rowchar, bool(lss)]}
+           "state": [lasttype, bool(last_ebad), tablemode, rowchar, bool(lss), pre]}
     if s.cursor <= start:
         return dict(ctx, sig="step|no-progress")
     if s.cursor > len(prefix) + nwin + 1:
-        # tokens never reach into the sentinels (the NUL rule ends the scan)
         return dict(ctx, sig="step|cursor-beyond-window")
+    if r == E["t_end"]:
+        return dict(ctx, sig="step|end-reported-before-nul")
     if s.tablemode < 0:
         return dict(ctx, sig="step|negative-tablemode")
     if not (s.line_startswith_section == -1 or 0 <= s.line_startswith_section < len(s.tokens)):
         return dict(ctx, sig="step|dangling-section-index")
-    # what the new / grown tokens cover
-    covered_from = start
-    new = after[len(before):]
-    grown = 0
-    if before and after[:len(before) - 1] == before[:-1] and len(after) >= len(before):
-        lb, la = before[-1], after[len(before) - 1]
-        if la[1] == lb[1] and la[2] >= lb[2]:
-            grown = la[2] - lb[2]
-            if la[0] != lb[0] and not (lb[0] == E["t_section"] and la[0] == E["t_text"]):
-                return dict(ctx, sig="step|earlier-token-retyped")
-        else:
-            return dict(ctx, sig="step|earlier-token-changed")
-    elif after[:len(before)] != before and not lss:
-        return dict(ctx, sig="step|earlier-token-changed")
-    pos = start + grown
-    for (typ, st, ln) in new:
-        if ln <= 0:
-            return dict(ctx, sig="step|empty-token")
-        if st != pos:
-            return dict(ctx, sig="step|gap-or-overlap")
-        pos = st + ln
-    if r == E["t_end"]:
-        return dict(ctx, sig="step|end-reported-before-nul")
-    if pos != s.cursor:
-        # the only characters a step may leave uncovered are U+EBAD
-        for i in range(pos, s.cursor):
-            if buf[i] != EBAD:
-                return dict(ctx, sig="step|character-lost")
-        if not s.last_ebad:
-            return dict(ctx, sig="step|ebad-flag-not-set")
+    # the invariant again: tokens tile [0, cursor') except U+EBAD ...
+    upto = min(s.cursor, len(prefix) + nwin)
+    v = check_tiling(buf[:upto], after, s.max_read - 32 + 0, 32)
+    if v is not None and not v["sig"].startswith("sentinel"):
+        return dict(ctx, sig="step|" + v["sig"])
+    # ... and a dropped U+EBAD run at the very end is remembered
+    covered = 0
+    for (_, st, ln) in after:
+        covered = st + ln
+    if covered < upto and not s.last_ebad:
+        return dict(ctx, sig="step|ebad-flag-not-set")
     if s.max_read >= len(buf):
         return dict(ctx, sig="sentinel|read-beyond-sentinels")
     return None
@@ -255,10 +243,10 @@ def build(tier: str) -> CheckSpec:
     sp = {"p0": int, "p1": int, "w0": int, "w1": int, "w2": int, "w3": int, "w4": int, "w5": int, "lasttype": int, "last_ebad": bool,
           "tablemode": int, "rowchar": int, "lss": bool}
     nwin = 3 if q else 5
-    for pre in (0, 1):
+    for pre in (0, 1, 2):
         for lo, hi in (FINE if nwin >= 3 else RANGES):
-            cubes.append(Cube(f"step, window {nwin}, {'at text start' if not pre else 'mid text'}, first in [{lo:#x},{hi:#x})", h_step, sp,
-                              {"nwin": nwin, "pre": pre, "first_lo": lo, "first_hi": hi}, timeout=tmo, per_path_timeout=30, group="step"))
+            cubes.append(Cube(f"step, window {nwin}, {['at text start', 'mid text', 'mid text after a dropped U+EBAD'][pre]}, first in [{lo:#x},{hi:#x})", h_step, sp,
+                              {"nwin": nwin, "pre": pre, "first_lo": lo, "first_hi": hi}, timeout=tmo * 2, per_path_timeout=30, group="step"))
     cubes.append(Cube("twin: two tokens of different types", twin_tokens, {"c0": int, "c1": int}, {}, timeout=60, role="twin"))
     return CheckSpec(
         property_id="C10",
@@ -303,6 +291,8 @@ def replay(cand: dict) -> dict:
             candidates.append("{|\n" * k + "| " + base)
         if d["state"][4]:
             candidates.append("==" + base)
+            candidates.append("==" + base[1:])
+            candidates.append("=" + base[1:])
     v = None
     with scanner_build.Fresh() as fresh:
         saved = utoken._mwscan
